@@ -48,4 +48,9 @@ CLAIMED['C19'] = {
     'text': 'The input validators are proved to accept exactly the documented single-signal layouts (returning the same elements) and to raise for every other extent combination; writes into argument buffers / option dicts are proved absent for the routines listed in the evidence. Layout-equivalence of complete numerical results, determinism and the frames of the numerically heavy routines are bounded.',
     'note': PROOF_NOTE + 'View/copy semantics of numpy are an assumed contract (buffer identities).',
 }
+CLAIMED['C06'] = {
+    'technique': 'deductive (modular data-flow): every variant and stage function is executed from its real source with the next stage replaced by a recording stub carrying the real signature; forwarding of the caller-supplied option tokens is an obligation at every stage call, on every path and for an arbitrary loop iteration; Pool.starmap by assumed contract; bounded stand-in: effective-kwargs trace in parent and forked workers over variants x option sets x routes x nprocesses',
+    'text': 'For all seven variants and both lower stages, every call of the next stage is proved to receive the caller\'s imf / envelope / extrema options (and the scalar options that apply) - none dropped, none replaced by a default, positional binding included. The config-object and partial routes are covered by C18 and by the bounded trace.',
+    'note': 'Assumes Pool.starmap(f, args) == [f(*a) for a in args] and the numpy shim contracts between stages; stage callees are arbitrary functions of their arguments (modular). The pyvc engine and SMT solvers are trusted.',
+}
 PENDING_REASON = {}
